@@ -8,3 +8,5 @@ import MicroHttp.Props.Tables
 #print axioms MicroHttp.Tables.max_connections
 #print axioms MicroHttp.Tables.no_shared_state
 #print axioms MicroHttp.Tables.no_interior_mutability
+#print axioms MicroHttp.Tables.server_new
+#print axioms MicroHttp.Tables.server_new_from_fd
